@@ -574,6 +574,13 @@ class SymInt:
                       z3.And(oz % 256 == 0, s.z >= 0, s.z < 256))
         return SymInt(s.z + oz)
 
+    def bit_length(s):
+        """int.bit_length: the number of bits of |x| (0 for 0); encoded exactly for |x| < 2^96, beyond that the path is undecided"""
+        a = z3.If(s.z < 0, -s.z, s.z)
+        if Ctx.cur.decide(a >= 2 ** 96):
+            raise Unsupported("bit_length of an integer beyond 2^96")
+        return SymInt(z3.Sum([z3.If(a >= 2 ** k, 1, 0) for k in range(96)]))
+
     def __lshift__(s, o):
         if isinstance(o, int) and o >= 0:
             return SymInt(s.z * (1 << o))
